@@ -73,9 +73,25 @@ def run(rep, tier):
     S, N = cs.F, cn.F
     both = sorted(set(S.fns) & set(N.fns))
     ra = rep.rule("R20.a", "items present in only one configuration are the documented ones", floor=5)
-    for p in sorted(set(S.fns) - set(N.fns)):
-        rep.ob(ra, "std-only/%s" % p, bool(STD_ONLY.search(p)), "item only in the std configuration: %s" % p,
-               expected="four std-only helpers, Drop for JitMemory", found=p)
+    std_only = sorted(set(S.fns) - set(N.fns))
+    # a private function that only the documented std-only items call is std-only with them (a helper extracted from one)
+    callers = {}
+    for q, fq in S.fns.items():
+        if fq.get("thir"):
+            for c in walk(fq["thir"]["body"]):
+                if c.get("k") == "call":
+                    callers.setdefault(callee_path(c), set()).add(_outer(q))
+    documented = {p for p in std_only if STD_ONLY.search(p)}
+    grew = True
+    while grew:
+        grew = False
+        for p in std_only:
+            if p not in documented and not S.fns[p].get("pub") and callers.get(p) and callers[p] <= documented | {p}:
+                documented.add(p)
+                grew = True
+    for p in std_only:
+        rep.ob(ra, "std-only/%s" % p, p in documented or _outer(p) in documented, "item only in the std configuration: %s" % p,
+               expected="four std-only helpers (and private functions only they call), Drop for JitMemory", found=p)
     for p in sorted(set(N.fns) - set(S.fns)):
         rep.ob(ra, "nostd-only/%s" % p, bool(NOSTD_ONLY.search(p)), "item only in the no_std configuration: %s" % p,
                expected="set_jit_exec_memory x4, the error shim", found=p)
@@ -88,7 +104,7 @@ def run(rep, tier):
             same += 1
             continue
         differing.append(p)
-        if p not in MAY_DIFFER:
+        if _outer(p) not in MAY_DIFFER:     # closures of a function that may differ are judged with it (R20.c)
             rep.ob(rb, "body/%s" % p, False, "body of %s differs between std and no_std" % p,
                    expected="identical typed THIR", found=_first_diff(a, b))
     rep.bulk(rb, same, "%d function bodies are identical in both configurations (interpreter, verifier, assembler, "
@@ -101,7 +117,7 @@ def run(rep, tier):
                expected="identical", found="differs" if path in differing else "identical")
     # const tables
     consts_same = all(S.consts.get(k, {}).get("value") == N.consts.get(k, {}).get("value") for k in set(S.consts) & set(N.consts))
-    rep.ob(rb, "consts", consts_same and set(S.consts) - set(N.consts) <= {k for k in S.consts if k.startswith("helpers::rand")},
+    rep.ob(rb, "consts", consts_same and set(S.consts) - set(N.consts) <= {k for k in S.consts if STD_ONLY.search(k) or k.rsplit("::", 1)[0] in documented},
            "evaluated constants agree", expected="equal values", found=sorted(set(S.consts) ^ set(N.consts))[:6])
 
     rc = rep.rule("R20.c", "each body that may differ differs only in the documented way", floor=6)
@@ -109,7 +125,7 @@ def run(rep, tier):
         if p not in both:
             rep.ob(rc, p, False, "%s missing in a configuration" % p)
             continue
-        fs, fn = S.fns[p], N.fns[p]
+        fs, fn = _with_closures(S, p), _with_closures(N, p)
         ok, found = _special(how, p, fs, fn, cs, cn)
         rep.ob(rc, p, ok, "%s: std and no_std variants (%s)" % (p, how), expected="differs only by %s" % how, found=found, sample=True)
 
@@ -177,6 +193,21 @@ def run(rep, tier):
     rep.assume("properties decided on the std facts carry over through body identity")
 
 
+def _outer(p):
+    return re.sub(r"(::\{closure#\d+\})+$", "", p)
+
+
+def _with_closures(F, p):
+    """the function together with the bodies of its closures (one pseudo-body, for the call inventories of R20.c)"""
+    fn = dict(F.fns[p])
+    inner = [F.fns[q]["thir"]["body"] for q in sorted(F.fns) if q != p and _outer(q) == p and F.fns[q].get("thir")]
+    if inner:
+        th = dict(fn["thir"])
+        th["body"] = {"k": "block", "stmts": [], "tail": None, "closures": inner, "outer": fn["thir"]["body"]}
+        fn["thir"] = th
+    return fn
+
+
 def _first_diff(a, b):
     if a is None or b is None:
         return "body missing"
@@ -217,22 +248,10 @@ def _special(how, p, fs, fn, cs, cn):
             a.get("write_enabled", (None,))[0] is False and a.get("offset", (None,))[0] == 0
         return ok, {"std": a, "nostd": b}
     if how == "two-pass":
-        def passes(f, ctx):
-            gen = ctx.roles.jit()
-            out = []
-            for c in _calls(f):
-                if callee_path(c) == gen:
-                    sig = []
-                    for a in c["args"][2:]:
-                        a = strip(a)
-                        while a.get("k") in ("ref", "deref", "coerce"):
-                            a = strip(a["e"])
-                        sig.append((a.get("k"), a.get("name")))
-                    out.append(tuple(sig))
-            res = [callee_path(c) for c in _calls(f) if (callee_path(c) or "").endswith("resolve_jumps")]
-            return out, len(res)
-        a, b = passes(fs, cs), passes(fn, cn)
-        return a == b and len(a[0]) == 2 and a[0][0] == a[0][1] and a[1] == 1, {"std": a, "nostd": b}
+        import props.c12 as c12
+        a = c12.two_pass(cs.F, cs.roles.jit())
+        b = c12.two_pass(cn.F, cn.roles.jit())
+        return a[0] and b[0] and a[1].get("passes") == b[1].get("passes"), {"std": a[1], "nostd": b[1]}
     if how == "wrapper":
         def flags(f):
             for c in _calls(f):
